@@ -23,7 +23,7 @@ CLAIMS = {
          "other fields untouched.", "5 C06"),
  "C07": ("callsign: all 64 codes in every character position (adjacent pairs jointly symbolic), category, wake class for all (TC,CA).", "5 C07"),
  "C08": ("pairing guard as a row step with symbolic slot ages (cpr_location stubbed), plus leaf lemmas of the CPR arithmetic "
-         "(NL table, wrap functions, zone index, longitude index) against integer oracles.", "5 C08"),
+         "(NL table, wrap functions, zone index, longitude index) against integer oracles, seeded CPR decode slices against an exact-integer encoder, and the haversine data flow with probe-valued libm.", "5 C08"),
  "C09": ("track_and_groundspeed / vertical_rate vs the TC19 oracle for all field values with libm as recording uninterpreted "
          "functions; row values on both paths, first and later frame.", "5 C09"),
  "C10": ("per-register soundness and completeness of the Comm-B decode through Plane::update on arbitrary rows with symbolic "
